@@ -172,8 +172,51 @@ def c02_one(w, inp, c, do02=True, do13=True):
                             {'code_name': k.co_name, 'firstlineno': k.co_firstlineno, 'index': fd[0], 'decoded': fd[1], 'cpython': fd[2]})
         if do13:
             c13_check(w, inp, k, dk, rd)
+        if do02:
+            # non-vacuity of C02_from_code_reads_like_cpython on real input: do the theorem's hypotheses hold for this
+            # code object?  (at most three EXTENDED_ARG prefixes, every jump target an instruction start, line table of
+            # in-range rows with even address deltas, on 3.10 no 255 delta)
+            w.stats['c02_theorem_hypotheses_hold' if c02_hypotheses(k) else 'c02_theorem_hypotheses_fail'] += 1
     w.stats['programs'] += 1
     w.sample({'label': inp['label'], 'instructions': len(O.folded(c))})
+
+
+def c02_hypotheses(k):
+    code = k.co_code
+    if len(code) % 2:
+        return False
+    run = 0
+    starts = set()
+    first = 0
+    for i in range(0, len(code), 2):
+        if code[i] == dis.EXTENDED_ARG:
+            run += 1
+            if run > 3:
+                return False
+        else:
+            starts.add(first); run = 0; first = i + 2
+    if run:
+        return False
+    for ins in dis.get_instructions(k):
+        if ins.opcode in dis.hasjabs or ins.opcode in dis.hasjrel:
+            if ins.argval not in starts:
+                return False
+    tbl = k.co_linetable if O.V310 else k.co_lnotab
+    if len(tbl) % 2:
+        return False
+    if O.V310:
+        return all(tbl[j] % 2 == 0 and tbl[j] != 255 for j in range(0, len(tbl), 2))
+    # co_lnotab: even once the 255-byte continuation rows (255, 0) are merged with the row they continue
+    acc = 0
+    rows = [(tbl[j], tbl[j + 1]) for j in range(0, len(tbl), 2)]
+    for n, (b, l) in enumerate(rows):
+        if b == 255 and l == 0 and n + 1 < len(rows) and rows[n + 1][0] != 0:
+            acc += 255
+            continue
+        if (acc + b) % 2:
+            return False
+        acc = 0
+    return True
 
 
 def c13_check(w, inp, k, dk, rd):
